@@ -8,6 +8,7 @@ From Cedar Require Export TExprRun.
 From Cedar Require Export TCRun.
 From Cedar Require Export ParseRun.
 From Cedar Require Export Fmt.
+From Cedar Require Export EstRun.
 
 Definition dispatchers : list (string -> list sexp -> option sexp) :=
   [ run_core
@@ -16,6 +17,7 @@ Definition dispatchers : list (string -> list sexp -> option sexp) :=
   ; run_tc
   ; run_c05
   ; run_fmt
+  ; run_formats
   ].
 
 Fixpoint dispatch (ds : list (string -> list sexp -> option sexp)) (cmd : string) (args : list sexp) : sexp :=
